@@ -319,6 +319,19 @@ def gen_schema(rng, sw):
             if name not in names:
                 names.add(name)
                 schema.append({"k": "array", "name": name, "item": rm, "shape": shape, "order": [0], "decl": "sugar", "order_decl": None})
+    if sw.get("union_nest") and sw.get("urefs"):
+        # a union whose members include a struct and the type of that struct's first field: the whole
+        # object and its first part start at the same address, only the member index tells them apart
+        c = next(counter)
+        sc = rng.choice(idx_sc)
+        schema.append({"k": "struct", "name": f"IN{c}", "fields": [["a", sc], ["b", rng.choice(idx_sc)]], "decl": "class"})
+        inner = len(schema) - 1
+        schema.append({"k": "struct", "name": f"ON{c}", "fields": [["first", inner], ["z", rng.choice(idx_sc)]], "decl": "class"})
+        outer = len(schema) - 1
+        members = [outer, inner] if rng.random() < 0.5 else [inner, outer]
+        schema.append({"k": "uref", "name": f"UN{c}", "members": members})
+        un = len(schema) - 1
+        schema.append({"k": "struct", "name": f"HN{c}", "fields": [["u", un], ["k", sc]], "decl": "class"})
     return schema
 
 
